@@ -251,8 +251,9 @@ Definition run_C19 (cmd : Z) (ints : list Z) (arrs : list (list Q)) : option (li
                                                 (map Z.to_nat sizes)))
             | _ => None
             end
-  (* 12: stack_pytree then layout: ints = slab; arrs = leaves (one slab each) *)
-  | 12%Z => Some (enc_opt (@concat Q) (stack_pytree arrs))
+  (* 12: stack_pytree: ints = number of leaves; arrs = leaves (one slab each; empty slabs allowed) *)
+  | 12%Z => let n := intn ints 0 in
+            Some (enc_opt (@concat Q) (stack_pytree (map (fun i => arr arrs i) (seq 0 n))))
   (* 13: unstack_to_pytree: ints = slab, n, nleaves; arrs = [array] *)
   | 13%Z => match ints with
             | slab :: n :: nl :: _ =>
